@@ -10,7 +10,7 @@ import re
 
 from hypothesis import strategies as st
 
-from vlib import tree
+from vlib import fuzzing, tree
 from vlib.core import hyp_run
 from vlib.ref import automata as AU
 from vlib.ref import globlang as G
@@ -248,6 +248,8 @@ def check_lint(ctx, case):
 
 
 def replay(ctx, case):
+    if "fuzz" in case:
+        return fuzzing.replay(ctx, case)
     globs = case.get("globs") or [case["glob"]]
     p = case["path"]
     comp = [G.compile_glob(g) for g in globs]
@@ -274,3 +276,5 @@ def run(ctx):
     ]
     hyp_run(ctx, "random", glob_case(), lambda c: check_random(ctx, c), 1500 if ctx.tier == "quick" else 30000)
     hyp_run(ctx, "lint", lint_case(), lambda c: check_lint(ctx, c), 40 if ctx.tier == "quick" else 800)
+    # coverage-guided stage (atheris) over 'glob NUL path' byte strings, same sandwich oracle
+    fuzzing.run_stage(ctx, "glob", 5000 if ctx.tier == "quick" else 400000, max_len=64)
